@@ -596,6 +596,38 @@ func ParamOf(v ssa.Value) *ssa.Parameter {
 // ---------------------------------------------------------------------------
 // range loops
 
+// LenZeroTest recognises a branch condition that tests len(x) against zero in
+// any of its spellings (== 0, != 0, > 0, < 1, >= 1, <= 0, with the constant
+// on either side). It returns x and the index of the successor (0 = true
+// edge, 1 = false edge) on which len(x) == 0 holds.
+func LenZeroTest(cond ssa.Value) (x ssa.Value, zeroSucc int, ok bool) {
+	op, a, b, okc := CondOf(cond)
+	if !okc {
+		return nil, 0, false
+	}
+	if _, isC := ConstInt(a); isC {
+		a, b, op = b, a, Flip(op)
+	}
+	lc, isCall := a.(*ssa.Call)
+	if !isCall {
+		return nil, 0, false
+	}
+	if bi, isB := lc.Common().Value.(*ssa.Builtin); !isB || bi.Name() != "len" {
+		return nil, 0, false
+	}
+	k, isC := ConstInt(b)
+	if !isC {
+		return nil, 0, false
+	}
+	switch {
+	case k == 0 && (op == token.EQL || op == token.LEQ), k == 1 && op == token.LSS:
+		return lc.Common().Args[0], 0, true
+	case k == 0 && (op == token.NEQ || op == token.GTR), k == 1 && op == token.GEQ:
+		return lc.Common().Args[0], 1, true
+	}
+	return nil, 0, false
+}
+
 // RangeLoop describes a `for ... range x` loop as go/ssa lowers it.
 type RangeLoop struct {
 	Header *ssa.BasicBlock // evaluates the continuation condition
@@ -605,6 +637,9 @@ type RangeLoop struct {
 	IsMap  bool      // map or string iteration through Range/Next
 	Index  ssa.Value // index phi (slice) or the Next tuple (map)
 	Next   *ssa.Next
+	// Counted: written as `for i := 0; i < len(x); i++` (len re-read per
+	// iteration: users that need the length fixed must check the body)
+	Counted bool
 }
 
 // RangeLoops finds the range loops of fn. Slice/array ranges are recognised
@@ -632,6 +667,36 @@ func RangeLoops(fn *ssa.Function) []RangeLoop {
 		}
 		bo, ok := iff.Cond.(*ssa.BinOp)
 		if !ok || bo.Op != token.LSS {
+			continue
+		}
+		// the written-out form `for i := 0; i < len(x); i++`: a header phi(0, phi+1)
+		// compared with len(x); the index is the phi itself
+		if ph, isPhi := bo.X.(*ssa.Phi); isPhi && ph.Block() == b && len(ph.Edges) >= 2 {
+			okShape, nInit := true, 0
+			for _, e := range ph.Edges {
+				if c, isC := ConstInt(e); isC && c == 0 {
+					nInit++
+					continue
+				}
+				inc, isInc := e.(*ssa.BinOp)
+				one, isOne := int64(0), false
+				if isInc {
+					one, isOne = ConstInt(inc.Y)
+				}
+				if !isInc || inc.Op != token.ADD || inc.X != ssa.Value(ph) || !isOne || one != 1 {
+					okShape = false
+				}
+			}
+			if okShape && nInit == 1 {
+				if call, isCall := bo.Y.(*ssa.Call); isCall {
+					if bi, isB := call.Common().Value.(*ssa.Builtin); isB && bi.Name() == "len" {
+						over := call.Common().Args[0]
+						if _, isStr := over.Type().Underlying().(*types.Basic); !isStr {
+							out = append(out, RangeLoop{Header: b, Body: b.Succs[0], Done: b.Succs[1], Over: over, Index: ph, Counted: true})
+						}
+					}
+				}
+			}
 			continue
 		}
 		// idx is `phi + 1` computed in the header (rangeindex) with phi(-1, idx)
